@@ -1,14 +1,23 @@
 #!/bin/bash
-# usage: seeded_run.sh <property id> <patch.diff> [tier]
-# Applies the patch to /repo, runs the property's check, restores /repo. Prints the check's tail and exit code.
+# usage: seeded_run.sh <property id> <patch.diff> [tier] [--inplace]
+# Default: applies the patch in a scratch worktree of /repo (outside /repo and /verif) and points the check at it
+# through MPYC_REPO, so that other work against /repo is not disturbed.  With --inplace: applies the patch to /repo
+# itself (git -C /repo apply), runs the check, and restores /repo (git -C /repo checkout -- .) straight afterwards.
 set -u
-P="$1"; PATCH="$(readlink -f "$2")"; TIER="${3:-quick}"
-cd /repo || exit 2
-if ! git diff --quiet; then echo "/repo is dirty; refusing"; exit 2; fi
-git apply "$PATCH" || { echo "patch does not apply"; exit 2; }
-cd /verif
-./check "$P" --tier "$TIER" > "/tmp/seeded_run_$P.log" 2>&1
-rc=$?
-git -C /repo checkout -- .
-grep -E "VIOLATION|KNOWN-FINDING|done:" "/tmp/seeded_run_$P.log" | tail -8
-echo "check_exit=$rc"
+P="$1"; PATCH="$(readlink -f "$2")"; TIER="${3:-quick}"; MODE="${4:-}"
+LOG="/tmp/seeded_run_${P}_$$.log"
+if [ "$MODE" = "--inplace" ]; then
+  cd /repo || exit 2
+  if ! git diff --quiet; then echo "/repo is dirty; refusing"; exit 2; fi
+  git apply "$PATCH" || { echo "patch does not apply"; exit 2; }
+  cd /verif; ./check "$P" --tier "$TIER" > "$LOG" 2>&1; rc=$?
+  git -C /repo checkout -- .
+else
+  WT=$(mktemp -d /tmp/seedrun.XXXXXX)
+  git -C /repo worktree add -q --detach "$WT" HEAD || exit 2
+  ( cd "$WT" && git apply "$PATCH" ) || { echo "patch does not apply"; git -C /repo worktree remove --force "$WT"; exit 2; }
+  cd /verif; MPYC_REPO="$WT" ./check "$P" --tier "$TIER" > "$LOG" 2>&1; rc=$?
+  git -C /repo worktree remove --force "$WT" >/dev/null 2>&1; rm -rf "$WT"
+fi
+grep -E "VIOLATION|KNOWN-FINDING|done:" "$LOG" | tail -8
+echo "check_exit=$rc log=$LOG"
